@@ -7,6 +7,8 @@ Rebin.tla (every small filter x grid) replayed into Filter.rebin / normalize / F
 import os
 import random
 
+import zlib
+
 import numpy as np
 
 from .common import model_check, validate_traces, MachineryError, pmap, Collector, dec7
@@ -23,6 +25,13 @@ def make_filter(fx, fy, desc=False, name='flt'):
     r = np.array(fy, dtype=float)
     if desc:
         nu, r = nu[::-1], r[::-1]
+    # the response is handed over as a float array, an integer array or a plain list (a third each) when its values are whole
+    # numbers: R_i is a function of the values, not of their container
+    form = zlib.crc32(repr((list(fx), list(fy), bool(desc))).encode()) % 3 if all(float(v) == int(v) for v in fy) else 0
+    if form == 1:
+        r = r.astype(np.int64)
+    elif form == 2:
+        r = [int(v) for v in r]
     f = Filter()
     f.name = name
     f.central_wavelength = 12.0 / (0.5 * (fx[0] + fx[-1])) * u.micron
